@@ -1,7 +1,7 @@
 /-
   Regenerated tie for C18: the call order the extractor reads from /repo/util/osutil/file.go is
   the order `Files.copyFile` / `Files.moveFile` interpret.  Re-proved by `decide` on every run.
-  Removing the same-file guard, moving it behind `os.Create`, calling `os.Remove` before the copy
+  Removing a same-file guard, moving it behind `os.Create` / `os.Rename`, calling `os.Remove` before the copy
   error is checked, removing on the error path, … change a generated list and break these lemmas.
 -/
 import Glb.Model.Files
@@ -23,16 +23,31 @@ theorem guard_precedes_create :
     copyFileEvents.idxOf .createDst < copyFileEvents.idxOf .copyDstSrc ∧
     copyFileEvents.count .createDst = 1 ∧ .unknown ∉ copyFileEvents := by decide
 
+/-- MoveFile identifies source and destination and returns on `os.SameFile` — all before
+    `os.Rename` (which would otherwise replace a destination the source is a symlink to) and
+    before the CopyFile fall-back -/
+theorem move_guard_precedes_rename :
+    moveFileEvents.idxOf .statSrc < moveFileEvents.idxOf .statDst ∧
+    moveFileEvents.idxOf .statDst < moveFileEvents.idxOf .guardSameFile ∧
+    moveFileEvents.idxOf .guardSameFile < moveFileEvents.idxOf .renameSrcDst ∧
+    moveFileEvents.idxOf .renameSrcDst < moveFileEvents.idxOf .callCopyFile ∧
+    moveFileEvents.count .renameSrcDst = 1 := by decide
+
 /-- `os.Remove(src)` is the last event, it occurs once, and it is directly preceded by the
-    CopyFile call and the `if err != nil { return err }` that follows it -/
+    CopyFile call and the `if err != nil { return err }` that follows it; the rename is directly
+    followed by `if err == nil { return nil }` -/
 theorem remove_only_after_successful_copy :
     moveFileEvents.count .removeSrc = 1 ∧
     moveFileEvents.getLast? = some .removeSrc ∧
     (moveFileEvents.dropLast.reverse.take 2).reverse = [.callCopyFile, .retIfErr] ∧
-    moveFileEvents.take 2 = [.renameSrcDst, .retNilIfOk] ∧ .unknown ∉ moveFileEvents := by decide
+    (moveFileEvents.drop (moveFileEvents.idxOf .renameSrcDst)).take 2 =
+      [.renameSrcDst, .retNilIfOk] ∧ .unknown ∉ moveFileEvents := by decide
 
-/-- the pinned order is the current order minus the four guard events
-    (`fstatSrc, retIfErr, statDst, guardSameFile`) -/
-theorem pinned_is_unguarded : pinnedCopyProg = copyProg.take 3 ++ copyProg.drop 7 := by decide
+/-- the pinned orders are the current orders minus the guard events
+    (CopyFile: `fstatSrc, retIfErr, statDst, guardSameFile`; MoveFile: `statSrc, statDst,
+    guardSameFile`) -/
+theorem pinned_is_unguarded :
+    pinnedCopyProg = copyProg.take 3 ++ copyProg.drop 7 ∧ pinnedMoveProg = moveProg.drop 3 := by
+  decide
 
 end Glb.Tie.Osutil
